@@ -143,6 +143,7 @@ class C02(Prop):
 
 class C07(Prop):
     pid = 'C07'
+    variants = ['release', 'debug']
     k_fields = ['R']
     o_fields = []
     isolate = True
@@ -154,7 +155,9 @@ class C07(Prop):
     assumptions = COMMON_ASSUME + ['stack bytes per recursion level and wall-clock time are observed on the real code, not proved']
 
     def gen(self, tier, R):
-        return [(c, 'release') for c in text.gen_total(tier, R)]
+        cs = text.gen_total(tier, R)
+        # the long inputs also in a build without optimisation (larger stack frames: depth problems show an order of magnitude earlier)
+        return [(c, 'release') for c in cs] + [(c, 'debug') for c in cs if 8000 < len(c) < 60000]   # (3000-token chains; the longest ones are too slow unoptimised)
 
 
 class C12(Prop):
@@ -346,6 +349,13 @@ class C14(Prop):
         cs = builtins.gen_c14(tier, R)
         out = [(c, 'release') for c in cs]
         out += [(c.replace('(bi _ 1 ', '(foldcall _ ', 1), 'release') for c in cs[::3]]
+        # the impure functions under every argument count and shape: optimize must leave the call in place
+        from vlib.core import num, s as S_, arr, b as B_
+        shapes = [[], [num(10.0)], [arr(num(1.0), num(2.0), num(3.0))], [arr()], [num(1.0), num(2.0), num(3.0)], [arr(num(1.0)), arr(num(2.0))], [S_('a')], [B_(True), num(2.0)],
+                  [arr(*[num(float(i)) for i in range(64)])]]
+        for nme in builtins.impure_names():
+            for sh in shapes:
+                out.append(('(foldcall _ ' + S_(nme) + ''.join(' ' + a for a in sh) + ')', 'release'))
         pool = builtins.POOL
         out.append(('(hashclass _ ' + ' '.join(pool) + ')', 'release'))
         return out
